@@ -6,6 +6,7 @@ TRANSLATE = ["EqFingerprint.v"]     # translator tie: coq/gen_proofs/EqFingerpri
 PRELUDE = H.PRELUDE
 FAILING = H.FAILING
 SHARD = 60
+IMPL_BATCH = 125      # histories per implementation subprocess (each step scans gc.get_objects(): keep batches small)
 RULE = ("random histories of 10-40 operations interleaving fingerprint() calls with every write path (element, slice, "
         "mask, index list, promotion, table cell / row / column / region, column replacement, through live column "
         "views) on vectors and tables; values include pairs whose hashes are equal (1, 2**61) and pairs whose hashes "
